@@ -20,7 +20,15 @@ type Tape struct {
 	replays bool
 	// Overrun counts draws made after a replayed tape was exhausted.
 	Overrun int
+	// mirror, when set, receives every draw as it is made (count in the first
+	// four bytes, then little-endian uint32 draws): a memory-mapped file that
+	// survives the death of the process, so that the tape of a run that ends in
+	// a fatal error or a race report can be recovered and minimised.
+	mirror []byte
 }
+
+// Mirror installs the mirror buffer.
+func (t *Tape) Mirror(buf []byte) { t.mirror = buf }
 
 //go:norace
 func splitmix(x *uint64) uint64 {
@@ -102,6 +110,14 @@ func (t *Tape) Intn(n int) int {
 	}
 	t.rec = t.rec[:len(t.rec)+1]
 	t.rec[len(t.rec)-1] = v
+	if m := t.mirror; m != nil {
+		n := len(t.rec)
+		if 4+4*n <= len(m) {
+			o := 4 * n
+			m[o], m[o+1], m[o+2], m[o+3] = byte(v), byte(v>>8), byte(v>>16), byte(v>>24)
+			m[0], m[1], m[2], m[3] = byte(n), byte(n>>8), byte(n>>16), byte(n>>24)
+		}
+	}
 	return int(v)
 }
 
